@@ -15,7 +15,7 @@ import (
 const (
 	c12IncName = "c12_included.liquid"
 	c12IncBody = "(inc:{{ x }}|{{ y }}|{{ i }}|{{ forloop.index }}){% assign z = 5 %}"
-	c12Probe   = "<{{ x }}|{{ y }}|{{ i }}|{{ forloop.index }}{% if forloop == 'mine' %}M{% endif %}>"
+	c12Probe   = "<{{ x }}|{{ y }}|{{ i }}|{{ forloop.index }}{% if forloop == 'mine' %}M{% endif %}|{{ f.index }}>"
 )
 
 var c12 struct {
@@ -30,6 +30,7 @@ const (
 	sAssignYX
 	sInclude
 	sAssignForloop
+	sAssignF // {% assign f = forloop %}: f keeps the value forloop had at that moment
 	nLeaf
 )
 const (
@@ -115,6 +116,8 @@ func c12SourceQ(prog []c12Stmt, sb *strings.Builder, quiet bool, depth int) {
 				sb.WriteString(`{% include "` + c12IncName + `" %}`)
 			case sAssignForloop:
 				sb.WriteString("{% assign forloop = 'mine' %}")
+			case sAssignF:
+				sb.WriteString("{% assign f = forloop %}")
 			}
 		} else {
 			open, close := "", ""
@@ -165,12 +168,13 @@ func c12IncludeInBlock(prog []c12Stmt, depth int) bool {
 type c12Store struct {
 	x, y, i string // printed values
 	fl      string // forloop.index as printed ("" outside loops); "M" when forloop was assigned 'mine'
+	f       string // f.index as printed, f being a copy of forloop taken by {% assign f = forloop %}
 }
 
 func c12Run(prog []c12Stmt, st *c12Store, out *strings.Builder) { c12RunQ(prog, st, out, false, 0) }
 
 func c12RunQ(prog []c12Stmt, st *c12Store, out *strings.Builder, quiet bool, depth int) {
-	emit := func() { out.WriteString("<" + st.x + "|" + st.y + "|" + st.i + "|" + st.fl + ">") }
+	emit := func() { out.WriteString("<" + st.x + "|" + st.y + "|" + st.i + "|" + st.fl + "|" + st.f + ">") }
 	probe := func() { // at the start of a body
 		if !quiet {
 			emit()
@@ -198,6 +202,11 @@ func c12RunQ(prog []c12Stmt, st *c12Store, out *strings.Builder, quiet bool, dep
 				out.WriteString("(inc:" + st.x + "|" + st.y + "|" + st.i + "|" + fl + ")")
 			case sAssignForloop:
 				st.fl = "M"
+			case sAssignF:
+				st.f = st.fl
+				if st.f == "M" {
+					st.f = "" // a string has no index
+				}
 			}
 		} else {
 			switch s.block {
@@ -276,7 +285,7 @@ func c12Families(tier string) []explore.Family {
 				st.x, st.y = "X0", "Y0"
 			}
 			var want strings.Builder
-			want.WriteString("<" + st.x + "|" + st.y + "|" + st.i + "|" + st.fl + ">")
+			want.WriteString("<" + st.x + "|" + st.y + "|" + st.i + "|" + st.fl + "|" + st.f + ">")
 			c12RunQ(prog, st, &want, quiet, 0)
 			r.Eval()
 			r.Transition()
@@ -364,7 +373,7 @@ func init() {
 	explore.Register(&explore.Prop{
 		ID:    "C12",
 		Level: "model_checking",
-		Rule: "all programs of <=4 (quick) / <=5 (thorough) statements (block bodies count) over {assign x=1, assign x=2, assign y=x, include, assign forloop='mine', capture x, for x (shadowing), for i with break, for forloop, tablerow x, if true, if false}, a probe reading x, y, i and forloop.index after every statement and at the start of every body - and, for programs with an include inside a block, a second rendering in which block bodies carry NO probes, so that the included file is the only observer and no body mentions forloop or the variables by name unless the program does, " +
+		Rule: "all programs of <=4 (quick) / <=5 (thorough) statements (block bodies count) over {assign x=1, assign x=2, assign y=x, include, assign forloop='mine', assign f=forloop (the whole loop object, read back later as f.index), capture x, for x (shadowing), for i with break, for forloop, tablerow x, if true, if false}, a probe reading x, y, i and forloop.index after every statement and at the start of every body - and, for programs with an include inside a block, a second rendering in which block bodies carry NO probes, so that the included file is the only observer and no body mentions forloop or the variables by name unless the program does, " +
 			"each with x,y initially unbound and bound; oracle = reference interpreter with one flat store and save/restore of loop variable and forloop; every legal identifier of <=3 symbols over {a,b,_,1,-,?} as assign/capture/loop variable; plus the capture-equivalence law on every program and on fragment pairs from other generators; " +
 			"state = reference store after the program; transition = one program rendered",
 		Assumptions: []string{
